@@ -278,6 +278,15 @@ fn main() {
             std::fs::write(&out, serde_json::to_string(&cases).unwrap()).expect("write cases");
             println!("sampled {} cases", cases.len());
         }
+        Some("sample-deser") => {
+            // engine sample-deser --seed 1 --n 48 --out cases.json   (registry r6)
+            let seed: u64 = arg(&args, "--seed").and_then(|s| s.parse().ok()).unwrap_or(0);
+            let n: usize = arg(&args, "--n").and_then(|s| s.parse().ok()).unwrap_or(48);
+            let out = arg(&args, "--out").expect("--out");
+            let cases: Vec<(String, vcore::deser::DeserCase)> = vcore::deser::sample_deser_cases::<reg_r6::gen::Rg>(seed, n).into_iter().map(|c| ("r6".to_string(), c)).collect();
+            std::fs::write(&out, serde_json::to_string(&cases).unwrap()).expect("write cases");
+            println!("sampled {} cases", cases.len());
+        }
         Some("replay") => {
             let path = args.get(2).expect("file");
             let case: ReplayCase = serde_json::from_str(&std::fs::read_to_string(path).expect("read")).expect("parse replay file");
